@@ -52,6 +52,8 @@ class Mod:
             self.tree = ast.parse(self.src, filename=self.path)
         except SyntaxError as e:
             raise AnalysisError('cannot parse %s: %s' % (rel, e))
+        from .canon import canonicalise
+        canonicalise(rel, self.tree)
         for parent in ast.walk(self.tree):
             for child in ast.iter_child_nodes(parent):
                 child._parent = parent
